@@ -30,12 +30,48 @@ def load(name):
     return ast.parse(src)
 
 
+def derive_chooser(tree):
+    """Controller.choose_point_to_replace minus its oracle call: a synthetic method
+         choose_point_loop(self, d, skip_kopt, cs, gs)  =  the initialisations, the selection loop verbatim, `return knew`
+    where (cs, gs) is what lagrange_gradient(k=None) returned (LAPACK: an oracle).  Added to the class only if the source has
+    exactly the expected shape; otherwise the method is missing and its translation is reported as failed."""
+    for k in tree.body:
+        if isinstance(k, ast.ClassDef) and k.name == 'Controller':
+            fs = [f for f in k.body if isinstance(f, ast.FunctionDef) and f.name == 'choose_point_to_replace']
+            if len(fs) != 1:
+                return
+            f = fs[0]
+            b = f.body
+            if [a.arg for a in f.args.args] != ['self', 'd', 'skip_kopt'] or len(b) != 7:
+                return
+            want = {0: 'delsq = self.delta ** 2', 1: 'scaden = None', 2: 'knew = None', 3: 'exit_info = None', 6: 'return (knew, exit_info)'}
+            if any(ast.unparse(b[i]) != t for i, t in want.items()):
+                return
+            t = b[4]
+            if not (isinstance(t, ast.Try) and len(t.body) == 1 and ast.unparse(t.body[0]) == 'cs, gs = self.model.lagrange_gradient(k=None)' and
+                    len(t.handlers) == 1 and ast.unparse(t.handlers[0].type) == 'LA.LinAlgError' and not t.orelse and not t.finalbody and
+                    isinstance(t.handlers[0].body[-1], ast.Return) and ast.unparse(t.handlers[0].body[-1]) == 'return (knew, exit_info)'):
+                return
+            if not isinstance(b[5], ast.For):
+                return
+            src = 'def choose_point_loop(self, d, skip_kopt, cs, gs):\n' + ''.join(
+                '\n'.join('    ' + l for l in ast.unparse(x).split('\n')) + '\n' for x in (b[0], b[1], b[2], b[5])) + '    return knew\n'
+            k.body.append(ast.parse(src).body[0])
+            return src
+
+
 def modules():
     util = Module('util', load('util'), funcs=spec.UTIL_FUNCS)
     model = Module('model', load('model'), cls='Model', fields=spec.MODEL_FIELDS, funcs=spec.MODEL_FUNCS, others={'util': util})
-    ctrl = Module('controller', load('controller'), cls='Controller', fields=spec.CONTROLLER_FIELDS, funcs=spec.CONTROLLER_FUNCS,
+    ctree = load('controller')
+    derive_chooser(ctree)
+    ctrl = Module('controller', ctree, cls='Controller', fields=spec.CONTROLLER_FIELDS, funcs=spec.CONTROLLER_FUNCS,
                   consts=spec.CONTROLLER_CONSTS, others={'util': util, 'model_state': model})
     return util, model, ctrl
+
+
+def tr_module(util):
+    return Module('trust_region', load('trust_region'), funcs=spec.TR_FUNCS, consts=spec.TR_CONSTS, others={'util': util})
 
 
 def gen_module(mod, imports=''):
@@ -44,6 +80,8 @@ def gen_module(mod, imports=''):
     out = [HEADER % ('dfols/%s.py' % mod.name, imports)]
     fails = []
     for c, v in mod.consts.items():
+        if isinstance(v, float):
+            continue               # float constants are inlined (as exact dyadic literals) where they are used
         out.append('Definition c_%s : Z := %s.' % (c, ('%d' % v) if v >= 0 else '(%d)' % v))
     for fname in mod.funcs:
         try:
@@ -66,6 +104,11 @@ def generate(outdir):
         path = os.path.join(outdir, 'Gen_%s.v' % mod.name)
         if not (os.path.exists(path) and open(path).read() == txt):
             open(path, 'w').write(txt)
+    txt, fails = gen_module(tr_module(util), 'From G Require Import Gen_util.\n')
+    allf += fails
+    path = os.path.join(outdir, 'Gen_trust_region.v')
+    if not (os.path.exists(path) and open(path).read() == txt):
+        open(path, 'w').write(txt)
     from . import fragments
     try:
         txt = fragments.generate(load('solver'), util, {'solver': load('solver'), 'controller': load('controller'), 'trust_region': load('trust_region'), 'util': load('util')},
@@ -88,7 +131,7 @@ _ntables = 0
 
 
 def count_functions():
-    return len(spec.UTIL_FUNCS) + len(spec.MODEL_FUNCS) + len(spec.CONTROLLER_FUNCS) + 4
+    return len(spec.UTIL_FUNCS) + len(spec.MODEL_FUNCS) + len(spec.CONTROLLER_FUNCS) + len(spec.TR_FUNCS) + 4
 
 
 def count_tables():
